@@ -16,8 +16,13 @@ from props import c02
 
 LEVEL = "model_checking"
 SPELL = dict(DYN0="^", DYN1="@", DYN2="#", DYN3="~")
-PROBES = [b"a ^ b * c", b"a + b ^ c", b"^ a", b"a ^", b"a @ b", b"@ a + b", b"a @", b"a + b", b"a ! b", b"! a", b"a !",
-          b"a ++", b"++ a", b"a ++ b", b"+ a", b"a ( b )", b"( a )", b"a # b", b"# a", b"a #"]
+TOKSPELL = dict(DYN0="^", DYN1="@", DYN2="#", NOT="!", PLUS="+", INCREMENT="++")
+PROBES, PIDX = [], {}
+for _t, _s in TOKSPELL.items():
+    for _role, _src in (("prefix", "%s a"), ("postfix", "a %s"), ("infix", "a %s b")):
+        PIDX["%s:%s" % (_role, _t)] = len(PROBES) + 1          # 1-based, for TLA+
+        PROBES.append((_src % _s).encode())
+PROBES += [b"a ^ b * c", b"a + b ^ c", b"@ a + b", b"a ( b )", b"( a )", b"a + b", b"a ++ b"]
 
 
 def text_of(toks):
@@ -25,8 +30,8 @@ def text_of(toks):
     for k in toks:
         if k["ty"] == "EOF":
             continue
-        out.append(SPELL.get(k["ty"]) or render.spell(k))
-    return " ".join(out)
+        out.append(("\n" if k.get("nl") else (" " if out else "")) + (SPELL.get(k["ty"]) or render.spell(k)))
+    return "".join(out)
 
 
 def validate_a(ctx, items):
@@ -61,7 +66,7 @@ def validate_b(ctx, items):
             continue
         o = r["obs"]
         h = [dict(op=e["op"], a=e["a"], l=e["l"], res=rep) for e, rep in zip(it["h"], o["replies"])]
-        recs.append(dict(part="B", id=it["id"], h=h, builtinIds=o["builtinIds"], probes=o["probes"],
+        recs.append(dict(part="B", id=it["id"], h=h, builtinIds=o["builtinIds"], probes=o["probes"], pidx=PIDX,
                          ftoks=[[dict(ty=k["ty"], lit=k["lit"], nl=k["nl"]) for k in ts] for ts in o["ftoks"]],
                          ftrees=o["ftrees"], fnerr=o["fnerr"]))
     return recs, fails, len(cases) * (len(PROBES) + 1)
